@@ -152,6 +152,11 @@ func (s *scanner) Reset(reader io.ReadSeeker) error {
 	}
 	s.sx.Init(reader)
 	s.sx.Error = func(_ *sc.Scanner, msg string) {
+		if msg == "invalid char escape" {
+			// an escape the scanner does not know, such as the \d of a regular
+			// expression, stays in the literal as written
+			return
+		}
 		if s.err == nil {
 			s.err = errors.New(msg)
 		}
